@@ -7,7 +7,10 @@ use std::ffi::{c_void, CString};
 use std::io::{Error, ErrorKind};
 use std::mem::size_of;
 use std::path::Path;
+#[cfg(not(clockbound_verif))]
 use std::sync::atomic;
+#[cfg(clockbound_verif)]
+use crate::verif::atomic;
 use std::{fs, ptr};
 
 use std::io::Seek;
@@ -75,12 +78,16 @@ impl ShmWriter {
         // that there is only one writer running on the system and writing to `path`. Consequently,
         // it is safe to wipe clean and then update. No-one will attempt to write to the segment
         // even if this process is scheduled out.
+        #[cfg(clockbound_verif)]
+        crate::verif::point("new.probe");
         if ShmWriter::is_usable_segment(path).is_err() {
             // Note that wiping the file sets the version to 0, which is used to indicate the
             // readers that the memory segment is not usable yet.
             ShmWriter::wipe(path, segsize)?
         }
 
+        #[cfg(clockbound_verif)]
+        crate::verif::point("new.mmap");
         // Memory map the file.
         let addr = ShmWriter::mmap_segment_at(path, segsize)?;
 
@@ -119,6 +126,8 @@ impl ShmWriter {
             version.store(1_u16, atomic::Ordering::Relaxed);
         }
 
+        #[cfg(clockbound_verif)]
+        crate::verif::point("new.done");
         Ok(writer)
     }
 
@@ -172,6 +181,8 @@ impl ShmWriter {
             }
         }
 
+        #[cfg(clockbound_verif)]
+        crate::verif::point("wipe.create");
         // Opens the file in write-only mode. Create a file if it does not exist, and truncate it
         // if it does.
         let mut file = std::fs::File::create(path)?;
@@ -191,12 +202,24 @@ impl ShmWriter {
         };
 
         // Write the ShmHeader
+        #[cfg(clockbound_verif)]
+        crate::verif::point("wipe.magic0");
         file.write_u32::<NativeEndian>(SHM_MAGIC[0])?; // Magic number 0
+        #[cfg(clockbound_verif)]
+        crate::verif::point("wipe.magic1");
         file.write_u32::<NativeEndian>(SHM_MAGIC[1])?; // Magic number 1
+        #[cfg(clockbound_verif)]
+        crate::verif::point("wipe.size");
         file.write_u32::<NativeEndian>(size)?; // Segsize
+        #[cfg(clockbound_verif)]
+        crate::verif::point("wipe.version");
         file.write_u16::<NativeEndian>(0)?; // Version
+        #[cfg(clockbound_verif)]
+        crate::verif::point("wipe.generation");
         file.write_u16::<NativeEndian>(0)?; // Generation
 
+        #[cfg(clockbound_verif)]
+        crate::verif::point("wipe.body");
         // Zero the rest of the segment
         let remaining = segsize - size_of::<ShmHeader>();
         let buf = vec![0; remaining];
@@ -214,6 +237,8 @@ impl ShmWriter {
             ));
         }
 
+        #[cfg(clockbound_verif)]
+        crate::verif::point("wipe.sync");
         // Sync all and drop (close) the descriptor
         file.sync_all()?;
 
@@ -279,7 +304,10 @@ impl ShmWrite for ShmWriter {
             };
             generation.store(gen, atomic::Ordering::Release);
 
+            #[cfg(not(clockbound_verif))]
             self.ceb.write(*ceb);
+            #[cfg(clockbound_verif)]
+            crate::verif::data_write(self.ceb, ceb);
 
             // Mark the end of the update into the memory segment by incrementing the generation
             // number. Note that we skip writing a generation equals to 0 when the counter rolls
